@@ -72,8 +72,10 @@ def _template_arg(size):
 
 
 def _to_literal(value):
-    """ `- 5` and `-(5)` are the literal -5 as well """
-    value = re.sub(r"\A\s*-\s*\(?\s*(0[xX][0-9a-fA-F]+|[0-9]+)\s*\)?\s*\Z", r"-\1", value)
+    """ `- 5`, `-(5)`, `(-5)` and `-((5))` are the literal -5 as well """
+    bare = re.sub(r"[\s()]", "", value)
+    if re.match(r"-(0[xX][0-9a-fA-F]+|[0-9]+)\Z", bare) and re.match(r"[\s(]*-[\s(]*\w+[\s)]*\Z", value) and value.count("(") == value.count(")"):
+        value = bare
     try:
         number = int(value, 0)
     except ValueError:
